@@ -45,6 +45,8 @@ def show(orig):
     for o in sorted(orig, key=str):
         if o[0] == "tuple":
             out.append("(" + ", ".join(show(x) for x in o[1]) + ")")
+        elif o[0] in ("shallow", "unflattener"):
+            out.append(f"{o[0]}({show(o[1])})")
         elif len(o) == 1:
             out.append(o[0])
         else:
@@ -248,7 +250,13 @@ class _State:
                 return frozenset({("self", e.attr)})
             if e.attr in ("shape", "dtype", "device", "ndim", "size", "__name__", "__class__", "__dict__", "xnp", "eps"):
                 return SCALAR if e.attr != "__dict__" else self.origin(e.value)
-            return self.origin(e.value)
+            base = self.origin(e.value)
+            if any(o[0] == "shallow" for o in base):
+                out = set()
+                for o in base:
+                    out |= set(o[1]) if o[0] == "shallow" else {o}
+                return frozenset(out)
+            return base
         if isinstance(e, ast.Subscript):
             base = self.origin(e.value)
             if isinstance(e.slice, ast.Constant) and isinstance(e.slice.value, int):
@@ -359,6 +367,14 @@ class _State:
                     if p in bf.params and bf.params.index(p) < len(c.args):
                         tgt = c.args[bf.params.index(p)]
                         self.write(c, f"call xnp.{x}(writes {p} in {bf.module.name.rsplit('.', 1)[-1]})", tgt, self.origin(tgt))
+            if x == "tree_flatten" and c.args:
+                # (leaves, structure): the leaves are the operator's own arrays, the structure holds its static attributes
+                return flat(arg_orig[id(c.args[0])])
+            if x == "tree_unflatten":
+                # a new object whose attributes ARE the objects that were flattened (a shallow copy of the source)
+                src = frozenset().union(*[flat(arg_orig[id(a)]) for a in c.args]) if c.args else frozenset()
+                src = frozenset(o for o in src if o[0] not in ("fresh", "scalar"))
+                return frozenset({("shallow", src)}) if src else FRESH
             if x in XNP_VIEW:
                 return flat(arg_orig[id(c.args[0])]) if c.args else FRESH
             if x in XNP_FRESH:
@@ -384,6 +400,9 @@ class _State:
                 self.write(c, "setattr", c.args[0], o, attr=ast.unparse(c.args[1]))
                 return SCALAR
             if f.id in self.env:
+                unfl = [o for o in flat(self.env[f.id]) if o[0] == "unflattener"]
+                if unfl:
+                    return frozenset({("shallow", frozenset().union(*[o[1] for o in unfl]))})
                 return frozenset({("unknown", f"{f.id}(...)")})
             r = self.idx.resolve_name(self.fi.module, f.id, self.fi)
             if r is not None and r.kind == "builtin":
@@ -406,6 +425,12 @@ class _State:
                 return flat(recv_o) if f.attr in ("setdefault", "pop") else SCALAR
         # cola callee?
         callees = self.resolve_callees(c)
+        if callees and isinstance(f, ast.Attribute) and f.attr == "flatten" and not c.args and all(cal[0].cls is not None and cal[0].name == "flatten" for cal in callees):
+            # LinearOperator.flatten(): the operator's own leaves and a function that rebuilds a shallow copy around given leaves
+            # (the protocol itself is checked by C18 flatten-protocol)
+            src = frozenset(o for o in flat(self.origin(f.value)) if o[0] not in ("fresh", "scalar"))
+            if src:
+                return frozenset({("tuple", (src, frozenset({("unflattener", src)})))})
         if callees:
             return self.apply_callees(c, callees, arg_orig)
         if isinstance(f, ast.Attribute):
@@ -594,6 +619,8 @@ class _State:
 
     # ---- write sites
     def write(self, node, kind, target, orig, via=None, attr=None):
+        if any(o[0] == "shallow" for o in orig):
+            orig = frozenset(("fresh", ) if o[0] == "shallow" else o for o in orig)
         ttext = ast.unparse(target)[:40] if target is not None else "?"
         site = WriteSite(self.fi, node, kind, ttext, orig, detail=attr or "")
         site.via = via
